@@ -225,6 +225,31 @@ pub fn native_minmax<T, const LESS: bool>(
     }
 }
 
+/// Stable merge sort; `greater(a, b)` = a has to come after b. Terminates and keeps every item
+/// whatever `greater` answers.
+fn merge_sort_by<I: Copy>(items: &mut Vec<I>, greater: &impl Fn(&I, &I) -> bool) {
+    let n = items.len();
+    if n < 2 {
+        return;
+    }
+    let mut right = items.split_off(n / 2);
+    merge_sort_by(items, greater);
+    merge_sort_by(&mut right, greater);
+    let left = std::mem::take(items);
+    let (mut i, mut j) = (0, 0);
+    while i < left.len() && j < right.len() {
+        if greater(&left[i], &right[j]) {
+            items.push(right[j]);
+            j += 1;
+        } else {
+            items.push(left[i]);
+            i += 1;
+        }
+    }
+    items.extend_from_slice(&left[i..]);
+    items.extend_from_slice(&right[j..]);
+}
+
 pub fn native_sorted<T>(
     vm: &mut Vm<T>,
     iterable: Value,
@@ -250,8 +275,11 @@ pub fn native_sorted<T>(
                         key_guards.push(guard_value(key));
                         result.push((key, k, v));
                     }
-                    result.sort_by(|(a, _, _), (b, _, _)| {
-                        a.partial_cmp(b).unwrap_or(std::cmp::Ordering::Equal)
+                    // the language's comparison is not a total order (nil ties with everything,
+                    // a string ties with the number equal to its length): the standard sort may
+                    // panic on such keys, a plain merge sort just picks some stable order
+                    merge_sort_by(&mut result, &|(a, _, _), (b, _, _)| {
+                        a.partial_cmp(b) == Some(std::cmp::Ordering::Greater)
                     });
 
                     let mut out = vm.init_table()?;
